@@ -81,9 +81,16 @@ def gen_align_ops(rng):
         if rng.random() < 0.2:
             ops.append(("dd", rng.choice(kinds)))
         for s in range(n):
-            # one statement: a few aligned items, tokens possibly wrapping over several lines
-            for k in rng.sample(kinds, rng.choice([1, len(kinds)])):
-                ops.append((rng.choice(["si", "si", "si", "sb", "sf"]), k))
+            # one statement: items of several kinds; kinds opened together see the same tokens (the
+            # formatter nests e.g. an identifier item inside a declaration item), so one Location can
+            # end up in several kinds with different pad kinds and gather_additions has to merge them
+            if rng.random() < 0.5:
+                groups = [[k] for k in rng.sample(kinds, rng.choice([1, len(kinds)]))]
+            else:
+                groups = [rng.sample(kinds, rng.choice([2, len(kinds)]) if len(kinds) >= 2 else 1)]
+            for grp in groups:
+                for k in grp:
+                    ops.append((rng.choice(["si", "si", "sb", "sf"]), k))
                 for _ in range(rng.choice([1, 1, 2, 3])):
                     if rng.random() < 0.15:
                         line += rng.choice([1, 2])
@@ -96,11 +103,20 @@ def gen_align_ops(rng):
                     col += w + 1
                     if rng.random() < 0.3:
                         ops.append(("sp", 1))
+                    if len(grp) > 1 and rng.random() < 0.3:
+                        # one of the open kinds closes early
+                        k = rng.choice(grp)
+                        ops.append(("fi", k))
+                k = grp[0]
                 if rng.random() < 0.1:
                     ops.append(("dk", k, line, max(1, col - 3), 1))
                 if rng.random() < 0.1:
                     ops.append(("aw", k, rng.choice([1, 2])))
-                ops.append(("fi", k))
+                if len(grp) > 1 and rng.random() < 0.5:
+                    ops.append(("FI",))
+                else:
+                    for k in rng.sample(grp, len(grp)):
+                        ops.append(("fi", k))
                 if rng.random() < 0.3:
                     ops.append(("tk", line, col, rng.choice([1, 2])))
                     col += 3
@@ -301,6 +317,15 @@ def run(tier, seed, replay):
     res.assumptions = [
         "idempotence theorem is conditional: premises lex(fmt x) = lex x and observe(fmt x) = observe x are not proved for formatter.rs",
         "aligner model: width sums do not overflow u32"]
+    res.coverage["explanation"] = (
+        "Partial proof + search. Machine-checked (coq/Props/C08.v, no axioms): the complete Gallina model of veryl_aligner "
+        "never underflows, pads each group to its maximum, is a projection, and depends on line numbers only through gap "
+        "classes; renderer lemmas on line advance of break nodes and comment lists; idempotence follows from two named "
+        "premises that are NOT proved for formatter.rs. The model is tied to the code by an aligner API correspondence on "
+        "random call sequences. The unproved premise is searched end to end: fmt(fmt(x)) == fmt(x) byte for byte on randomly "
+        "re-laid-out repository sources and generated snippets under random [format] settings (library path of `veryl fmt`, "
+        "plus a sample through the real CLI). Non-idempotence on the unchanged tree falls into the classes of "
+        "KNOWN_FINDINGS.txt, each recognised by a narrow mechanical test; anything else fails the check.")
     proved = C.prove(res, PID)
 
     ok, binary, log = C.harness_build("vh-fmt")
@@ -399,7 +424,9 @@ def run(tier, seed, replay):
     else:
         groups = {}
         for (cfg, text, tag), r in zip(cases, results):
-            if r["status"] == "OK" and len(text) < 6000:
+            # only texts the library path found idempotent: the known non-idempotent classes are
+            # reported above, here the CLI has to agree with the library and with itself
+            if r["status"] == "OK" and len(text) < 6000 and r.get("f2") == r["f1"]:
                 groups.setdefault(G.cfg_wire(cfg), (cfg, []))[1].append((text, r["f1"]))
         sample = []
         for kx in sorted(groups)[:(4 if tier == "quick" else 24)]:
